@@ -1644,6 +1644,18 @@ static det_t check_det(fact_t *f)
         {
             viol2(rn, "not-sign-of-pivot-product", "%s n=%u class=%s: returned %d, sign * prod sign(pivot) = %d", rn, n, f->cname, sgn, esign);
         }
+        {
+            /* documented range is -1, 0, +1: a stored pivot of (+-)0 makes the determinant, hence its sign, zero */
+            double *Z = xd_copy(f->F, (size_t)n * n);
+            unsigned const k = (unsigned)(vf.case_no % n);
+            Z[(size_t)n * k + k] = (vf.case_no & 8) ? -0.0 : 0.0;
+            vf_log("%s(n, A with pivot %u := 0)", rn, k);
+            ++vf.evals;
+            int const z = fam == FAM_PLU ? a_real_plu_sgndet(n, Z, f->sign) : a_real_ldl_sgndet(n, Z);
+            cnt(fn, "_sgndet-zero-pivot-gives-0");
+            if (z != 0) { viol2(rn, "nonzero-for-zero-pivot", "%s n=%u: pivot %u set to zero but %d returned", rn, n, k, z); }
+            free(Z);
+        }
         if (in_range && det != 0 && isfinite(det))
         {
             cnt(fn, "_sgndet-agrees-with-det");
